@@ -410,6 +410,19 @@ def gen_formula(rng, cfg, depth=None):
     return gen_phi(rng, cfg, d, pool)
 
 
+def with_near_twin(rng, f):
+    """(f1 o f2) where f1, f2 are f with one constant moved by different amounts below 1e-6: two sub-formulas
+    that differ only in the seventh decimal of a constant are different sub-formulas."""
+    consts = sorted(set(g for g in walk(f) if g[0] == 'const' and g[2] >= 0), key=repr)
+    if not consts:
+        return f
+    c = rng.choice(consts)
+    d1, d2 = rng.sample([0.0, 1e-7, 2e-7, 4e-7], 2)
+    f1 = map_formula(f, lambda h: C(c[2] + d1) if h == c else h)
+    f2 = map_formula(f, lambda h: C(c[2] + d2) if h == c else h)
+    return N(rng.choice(['and', 'or', 'implies']), f1, f2)
+
+
 def gen_values(rng, n, style=None):
     style = style or rng.choice(['dyadic', 'small', 'small', 'steps', 'spiky'])
     if style == 'dyadic':
